@@ -18,6 +18,11 @@ func (fr *frame) safety(kind string, ins ssa.Instruction, st *State, goal *Term)
 	if fr.isDiscovery {
 		return
 	}
+	if kind == "overflow" && fr.fc != nil && fr.fc.Opts["assume-no-overflow"] != "" {
+		fr.vc.assume(st.reach, goal)
+		fr.vc.note("unchecked assumption in %s: int arithmetic does not overflow (counters bounded by the input size)", relName(fr.fn))
+		return
+	}
 	if fr.fc != nil && fr.fc.NoSafety {
 		fr.vc.assume(st.reach, goal)
 		return
